@@ -332,7 +332,7 @@ class Scheduler(Subject):
             ]
             service_api.uuid = new_uuid
 
-            if service_api.input_parameters:
+            if service_api.service.input_parameters:
                 service_api.input_parameters = copy.deepcopy(service_api.service.input_parameters)
 
             self.substitute_loop_indexes(service_api)
